@@ -10,6 +10,11 @@ regenerated   : the `exempt` expression of _AuthMiddleware.process_request with 
 correspondence: the real Falcon app (falcon.testing.TestClient) around services whose method names collide with framework
                 endpoints, with an authenticator that rejects everything and records whether it was asked, and an invocation
                 log of all service code; (callback asked, refused with 401) vs the Coq model on every request.
+histories     : multi-request histories on ONE app (PKCE on and off) with a stateful operator callback (token revoked / proxy header
+                required / PermissionError between requests), credentials by Authorization header and by the _vgi_auth cookie, all
+                route kinds x prefixes; oracle per step: service code ran or a non-exempt request passed authentication => the
+                callback was asked in THIS request and accepted; each step vs the (stateless) Coq model run_step on
+                (callback invocations, 401); the chain members are regenerated (gen/G_ExemptChain.v).
 oracle        : on the real app alone, from the property text: with a rejecting callback no service code runs, and the callback
                 is skipped only for OPTIONS, paths below /.well-known/, the exact health path, and paths below {prefix}/_oauth/
                 while the PKCE flow is active.
@@ -34,9 +39,12 @@ META = {
     "level_text": "Coq theorems for all paths, methods, prefixes and configurations: the exemption test of _AuthMiddleware holds "
     "exactly for OPTIONS, paths below /.well-known/, the exact health path and paths below {prefix}/_oauth/ (PKCE on); with a "
     "rejecting callback a request outside these never reaches routing nor a middleware that must follow authentication; "
-    "dispatch happens only after the callback accepted. The predicate term and the middleware list in the theorems are "
-    "regenerated from the source on every run.",
-    "level_note": "Trusted: Coq kernel (vm_compute), the two ast translators, the reading of Falcon's request phase "
+    "dispatch happens only after the callback accepted; with the authenticator as make_wsgi_app composes it (callback, then the "
+    "PKCE cookie member) a dispatch needs an accepting answer of the operator callback given in this request about this request's "
+    "own Authorization value or cookie, for every step of every history. The predicate term, the middleware list and the chain "
+    "members in the theorems are regenerated from the source on every run.",
+    "level_note": "Trusted: Coq kernel (vm_compute), the three ast translators (t_c20_chain is a strict shape check of "
+    "chain_authenticate / make_cookie_authenticate: no closure state, inner asked every time), the reading of Falcon's request phase "
     "(hand model, tied by correspondence: callback asked / 401 on every generated request, incl. sticky-before-auth probes), "
     "Falcon routing and the responders (not modelled: the theorems stop at 'routing not reached').",
     "design_ref": "§5 C20",
@@ -93,10 +101,11 @@ def violation_key(prefix: str, path: str) -> str:
 
 
 def translate(ctx: Any) -> None:
-    from translate import t_c20_exempt, t_c20_middleware
+    from translate import t_c20_chain, t_c20_exempt, t_c20_middleware
 
     ctx.gen("G_Exempt", lambda: t_c20_exempt.definition(ctx.repo))
     ctx.gen("G_ExemptMw", lambda: t_c20_middleware.definition(ctx.repo))
+    ctx.gen("G_ExemptChain", lambda: t_c20_chain.definition(ctx.repo))
 
 
 _PATH_SURPRISES: list[tuple[str, str]] = []
@@ -124,12 +133,85 @@ def _one(client: Any, srv: Any, S: Any, verb: str, path: str, junk_session: bool
     return r.status_code, bool(S.AUTH_CALLS), list(S.LOG)
 
 
-def replay(ctx: Any, data: dict[str, Any]) -> None:
-    """Re-run exactly one recorded request against the real app."""
+# ---- request histories on ONE app with a stateful operator callback (PKCE cookie member) ----
+# a step: {"live","need","perm": callback state now; "hk","ck": Authorization / cookie kind 0 none 1 good 2 bad 3 empty;
+#          "edge": proxy header present; "verb","path"}
+HIST_ROUTES = [("POST", "/f"), ("POST", "/healthz"), ("POST", "/s/init"), ("POST", "/s/exchange"), ("POST", "/health/init"),
+               ("POST", "/__describe__"), ("POST", "/__upload_url__/init"), ("GET", "/describe"), ("DELETE", "/f"),
+               ("GET", "/health"), ("GET", "/_oauth/logout"), ("OPTIONS", "/f"), ("POST", "/nosuch")]
+
+
+def _hist_step(client: Any, srv: Any, S: Any, auth: Any, st: dict[str, Any]) -> dict[str, Any]:
+    """Set the callback's state, send one request, report what happened in THIS request."""
+    auth.live, auth.need_edge, auth.perm = st["live"], st["need"], st["perm"]
+    tok = {1: S.GOOD_TOKEN, 2: S.BAD_TOKEN, 3: ""}
+    headers = {"Content-Type": ARROW}
+    if st["hk"]:
+        headers["Authorization"] = f"Bearer {tok[st['hk']]}"
+    if st["ck"]:
+        headers["Cookie"] = f"_vgi_auth={tok[st['ck']]}"
+    if st["edge"]:
+        headers[S.EDGE_HEADER] = "1"
+    seg = [p for p in st["path"].split("/") if p]
+    name = next((p for p in reversed(seg) if p not in ("init", "exchange")), "f") if seg else "f"
+    body = S.request_body(srv, name) if st["verb"] == "POST" else b""
+    del S.LOG[:]
+    del S.AUTH_CALLS[:]
+    del auth.calls[:]
+    r = client.simulate_request(st["verb"], st["path"], body=body, headers=headers)
+    return {"status": r.status_code, "calls": [list(c) for c in auth.calls], "accepted": any(c[2] for c in auth.calls), "service_log": list(S.LOG)}
+
+
+def _hist_judge(prefix: str, pkce: bool, steps: list[dict[str, Any]], obs: list[dict[str, Any]], i: int) -> tuple[str, str] | None:
+    """Property oracle for step i of a history: dispatch needs an accepting verdict of the callback in this request."""
+    st, o = steps[i], obs[i]
+    allowed = spec_allowed(prefix, pkce, True, st["verb"], decoded(st["path"]))
+    passed = bool(o["service_log"]) or (not allowed and o["status"] != 401)
+    if not passed or o["accepted"]:
+        return None
+    earlier = any(obs[j]["accepted"] and steps[j]["ck"] == st["ck"] and steps[j]["hk"] != 1 for j in range(i))
+    if st["ck"] == 1 and earlier:
+        key = "dispatch-on-remembered-cookie-verdict"
+    elif st["hk"] == 1 and any(obs[j]["accepted"] and steps[j]["hk"] == 1 for j in range(i)):
+        key = "dispatch-on-remembered-header-verdict"
+    else:
+        key = "dispatch-without-accepting-verdict"
+    what = (f"step {i}: {st['verb']} {st['path']} (Authorization kind {st['hk']}, cookie kind {st['ck']}, edge header {st['edge']}; callback now: "
+            f"live={st['live']} need_edge={st['need']}) was answered HTTP {o['status']}, service code {o['service_log']}, although the callback "
+            f"was asked {len(o['calls'])} time(s) in this request and accepted none")
+    return key, what
+
+
+def _replay_history(ctx: Any, data: dict[str, Any]) -> None:
     import falcon.testing
     from harness import c20_service as S
 
     rp = data["replay"]
+    un, stn = SERVICES[rp.get("service", "A")]
+    srv = S.make_server(un, stn)
+    auth = S.StatefulAuth()
+    app = S.make_app(srv, prefix=rp["prefix"], pkce=rp["pkce"], health=True, reject=None, upload=True, authenticate=auth)
+    client = falcon.testing.TestClient(app)
+    steps = rp["history"]
+    obs = []
+    for i, st in enumerate(steps):
+        obs.append(_hist_step(client, srv, S, auth, st))
+        print(f"replayed step {i}: {st['verb']} {st['path']} -> HTTP {obs[-1]['status']} callback verdicts {[c[2] for c in obs[-1]['calls']]} service {obs[-1]['service_log']}", flush=True)
+        j = _hist_judge(rp["prefix"], rp["pkce"], steps, obs, i)
+        if j is not None:
+            ctx.violation(j[0], j[1], {**rp, "observed": obs})
+            return
+
+
+def replay(ctx: Any, data: dict[str, Any]) -> None:
+    """Re-run exactly one recorded request (or one recorded history) against the real app."""
+    import falcon.testing
+    from harness import c20_service as S
+
+    rp = data["replay"]
+    if "history" in rp:
+        _replay_history(ctx, data)
+        return
     un, st = SERVICES[rp.get("service", "A")]
     srv = S.make_server(un, st)
     app = S.make_app(srv, prefix=rp["prefix"], pkce=rp["pkce"], health=rp["health"], reject=rp["reject"], sticky=rp.get("sticky", False), upload=True)
@@ -150,10 +232,12 @@ def run(ctx: Any) -> None:
             "P_C20": [
                 "C20_exempt_iff", "C20_health_is_exact", "C20_no_dispatch_when_rejected", "C20_dispatch_only_if_allowed",
                 "C20_auth_precedes_dispatch", "C20_bypass_only_if_allowed",
+                "C20_auth_calls_about_this_request", "C20_dispatch_needs_fresh_verdict", "C20_history_fresh_verdict",
             ],
             "T_Exempt": [
                 "exempt_tie", "gen_order_ok", "C20_source_exempt_iff", "C20_source_no_dispatch_when_rejected",
                 "C20_source_auth_precedes_dispatch", "C20_source_bypass_only_if_allowed",
+                "members_tie", "C20_source_dispatch_needs_fresh_verdict",
             ],
         },
     )
@@ -246,6 +330,70 @@ def run(ctx: Any) -> None:
     ctx.sample({"prefix": "", "verb": "POST", "path": "/health/init", "callback": "rejects", "expected": "asked, 401"})
     ctx.sample({"prefix": "/vgi", "verb": "GET", "path": "/vgi/health", "callback": "rejects", "expected": "not asked, 200"})
 
+    # ---- request histories on one app: stateful operator callback, credentials by header and by cookie ----
+    ctx.log("single-request sweep done; request histories with a stateful callback")
+    hist_cases: dict[tuple[Any, ...], tuple[int, bool]] = {}
+    n_hist = 0
+    for prefix in prefixes:
+        for pkce in (True, False):
+            if not pkce and prefix not in prefixes[:2]:
+                continue
+            srv = servers["A"]
+            routes = [(v, prefix + p) for v, p in HIST_ROUTES]
+            base = {"live": True, "need": False, "perm": False, "hk": 0, "ck": 0, "edge": False}
+            histories: list[list[dict[str, Any]]] = []
+            # targeted: accept a credential once, then every route with the same credential after the callback's mind changed
+            for chan in ("ck", "hk"):
+                for change in ({"live": False}, {"need": True}, {"live": False, "perm": True}):
+                    h = [{**base, chan: 1, "verb": "POST", "path": prefix + "/f"}]
+                    h += [{**base, **change, chan: 1, "verb": v, "path": p} for v, p in routes]
+                    h += [{**base, "need": True, "edge": True, chan: 1, "verb": "POST", "path": prefix + "/s/init"}]
+                    h += [{**base, "need": True, chan: 1, "verb": "POST", "path": prefix + "/s/init"}]
+                    histories.append(h)
+            # random walks over callback state x credentials x routes
+            for _ in range(6 if thorough else 2):
+                h = []
+                live, need, perm = True, False, False
+                for _k in range(60 if thorough else 30):
+                    if ctx.rng.random() < 0.25:
+                        live = not live
+                    if ctx.rng.random() < 0.15:
+                        need = not need
+                    if ctx.rng.random() < 0.1:
+                        perm = not perm
+                    v, p = ctx.rng.choice(routes[:8]) if ctx.rng.random() < 0.8 else ctx.rng.choice(routes)
+                    h.append({"live": live, "need": need, "perm": perm, "hk": ctx.rng.choice([0, 0, 1, 1, 2]), "ck": ctx.rng.choice([0, 1, 1, 1, 2, 3]),
+                              "edge": ctx.rng.random() < 0.5, "verb": v, "path": p})
+                histories.append(h)
+            for h in histories:
+                auth = S.StatefulAuth()
+                app = S.make_app(srv, prefix=prefix, pkce=pkce, health=True, reject=None, upload=True, authenticate=auth)
+                client = falcon.testing.TestClient(app)
+                obs: list[dict[str, Any]] = []
+                for i, st in enumerate(h):
+                    o = _hist_step(client, srv, S, auth, st)
+                    obs.append(o)
+                    n_hist += 1
+                    ctx.count("impl_runs")
+                    ctx.count("history_steps")
+                    ctx.tally("history_status", o["status"])
+                    ctx.tally("history_callback_calls", len(o["calls"]))
+                    ctx.case(["hist", prefix, pkce, st], nontrivial=True)
+                    j = _hist_judge(prefix, pkce, h, obs, i)
+                    if j is not None:
+                        ctx.violation(j[0], j[1], {"prefix": prefix, "pkce": pkce, "service": "A", "history": h[: i + 1], "observed_last": o})
+                    if o["accepted"] and o["status"] == 401:
+                        ctx.violation("accepted-but-401", f"step {i}: the callback accepted {st['verb']} {st['path']} in this request but the answer was 401",
+                                      {"prefix": prefix, "pkce": pkce, "service": "A", "history": h[: i + 1], "observed_last": o})
+                    hk = (pkce, prefix, st["verb"], decoded(st["path"]), st["live"], st["need"], st["perm"], st["edge"], st["hk"], st["ck"])
+                    ho = (len(o["calls"]), o["status"] == 401)
+                    prev_h = hist_cases.get(hk)
+                    if prev_h is not None and prev_h != ho and j is None:
+                        ctx.violation("history-dependent-auth-decision", f"step {i}: the same request under the same callback state was decided {prev_h} before and {ho} now "
+                                      "(calls, 401): the decision depends on earlier requests", {"prefix": prefix, "pkce": pkce, "service": "A", "history": h[: i + 1], "observed_last": o})
+                    hist_cases.setdefault(hk, ho)
+    ctx.sample({"history": "cookie accepted on POST /vgi/f; token revoked; same cookie on every route", "expected": "each later step: callback asked twice, 401, no service code"})
+
     # sanity of the harness itself: with no callback the colliding methods do run (the invocation log works)
     srvA = servers["A"]
     c0 = falcon.testing.TestClient(S.make_app(srvA, prefix="/vgi", pkce=False, health=True, reject=None, upload=True))
@@ -298,9 +446,35 @@ def run(ctx: Any) -> None:
             {"prefix": prefix, "pkce": om, "health": he, "reject": "ValueError" if au else None, "sticky": stk, "verb": verb, "path": path,
              "impl": list(model_cases[keys[i]])},
         )
+    # ---- model side for the history steps (the model is stateless: every step is a case of run_step) ----
+    from vlib.coqterm import cN
+
+    hkeys = list(hist_cases)
+    hcases = []
+    for (pkce, prefix, verb, path, live, need, perm, edge, hk_, ck_) in hkeys:
+        calls, is401 = hist_cases[(pkce, prefix, verb, path, live, need, perm, edge, hk_, ck_)]
+        inp = (f"((true, {cbool(pkce)}, {cbool(pkce)}, true, false), {cstr(prefix)}, {cstr(verb)}, {cstr(path)}, "
+               f"({cbool(live)}, {cbool(need)}, {cbool(perm)}, {cbool(edge)}), ({cN(hk_)}, {cN(ck_)}))")
+        hcases.append((inp, f"({cN(calls)}, {cbool(is401)})"))
+    okh, badh, clogh = ctx.coq_mismatches(
+        "From Coq Require Import List NArith Bool.\nFrom VGI Require Import M_Exempt Corr.\nImport ListNotations.\nOpen Scope N_scope.",
+        "(fun x => let '(n, r, _) := run_step x in (n, r))",
+        "pair_eqb N.eqb Bool.eqb",
+        hcases,
+        "(bool * bool * bool * bool * bool) * list N * list N * list N * (bool * bool * bool * bool) * (N * N)",
+        "N * bool",
+        shard=4000,
+    )
+    ctx.count("history_model_cases", len(hcases))
+    ctx.obligation("correspondence:M_Exempt.run_step", "correspondence", okh and not badh, clogh if not okh else f"{len(badh)} of {len(hcases)} history steps disagree")
+    if badh and not any(v["key"].startswith("dispatch-") or v["key"] == "history-dependent-auth-decision" for v in ctx.violations):
+        k = hkeys[badh[0]]
+        ctx.violation("model-impl-disagree-history", "implementation and model decide a history step differently on (callback invocations, 401)",
+                      {"step": list(k), "impl": list(hist_cases[k])})
     ctx.assumptions += [
         "Falcon request phase: process_request of the middleware list in order, the first raise ends it, the responder runs only when none raised (hand model; tied by correspondence)",
         "routing and responders are not modelled: 'service code' is only reachable through routing (EvDispatch)",
         "OAuth browser-flow endpoints are read as the namespace {prefix}/_oauth/ while PKCE is configured",
         "OIDC discovery is never triggered by the generated requests (issuer http://127.0.0.1:1)",
+        "chain_authenticate / make_cookie_authenticate are modelled as a pure function of the callback's answers now (shape-checked by t_c20_chain, tied by the history correspondence)",
     ]
